@@ -4,6 +4,7 @@ import OdakProofs.Lemmas.GenHolograms
 import OdakModel.Hologram
 import OdakModel.Generated.CallSites
 import Mathlib.Analysis.SpecialFunctions.Trigonometric.Inverse
+import OdakProofs.Lemmas.GenOptimizerAttrs
 
 /-! # C07 – hologram optimisers return a displayable hologram and its true reconstruction
   The optimiser dynamics are not modelled: every statement quantifies over an ARBITRARY final
@@ -252,5 +253,42 @@ theorem C07_gen_double_phase_resolution (n m : Nat) : dpRows n m = n ∧ dpCols 
   · simp only [dpCols, Fld.torchCropCenterCols, Fld.torchZeroPadRows, Fld.torchZeroPadCols, Index.torchPad, Index.storeAxis,
       Index.torchCrop, Index.loadAxis, Index.pySliceBounds, torchPadDef_res0, torchPadDef_res1, torchCropDef_lo1, torchCropDef_hi1]
     split_ifs <;> omega
+
+end Odak
+
+/-! ## The attribute flow of `multi_color_hologram_optimizer` regenerated from the Python source on this run (work package 13)
+  (`OdakModel/Generated/OptimizerAttrs.lean`, written by `harness/translate/optattrs.py`: per method the attributes assigned, written in place
+  and read, the event trace of one `optimize` call with the calls of its own methods inlined, what is handed to the torch optimiser, where
+  the returned tuple comes from).  The numerics stay opaque; the theorems are kernel evaluations over those tables. -/
+namespace Odak
+open Gen
+
+/-- **`optimize` computes what it returns from what the SAME call wrote**: the only attribute an `optimize` call assigns is `optimizer`,
+    unconditionally and before anything reads it; no attribute assigned during an earlier `optimize` call is read before being assigned again -/
+theorem C07_gen_optimize_reads_nothing_left_by_an_earlier_call : attrsWritten optimizeTrace = ["optimizer"] ∧ noStaleRead optimizeTrace = true :=
+  ⟨gen_optimize_writes, gen_optimize_no_stale_read⟩
+
+/-- **the returned reconstruction is the reconstruction of the returned hologram**: `propagator.reconstruct` is called with the local that
+    is returned first as its only argument, its result is bound to the local returned second, and neither is assigned again before the `return` -/
+theorem C07_gen_optimize_returns_reconstruction_of_returned_hologram :
+    optimizeReconstructArg = optimizeReturns.headD "" ∧ optimizeReconstructResult = (optimizeReturns.drop 1).headD "" ∧
+    ¬ ("hologram_phases" ∈ optimizeAssignedAfterReconstruct) ∧ ¬ ("reconstruction_intensities" ∈ optimizeAssignedAfterReconstruct) := by decide
+
+/-- what DOES persist between two `optimize` calls on one object (by design - a second call continues the optimisation): the tensors handed
+    to the torch optimiser, updated in place by `optimizer.step()`, and the peak amplitude; none of them is re-assigned by `optimize`
+    (`init_phase`, `init_channel_power`, `init_amplitude` run in `__init__` only).  C07 makes no claim about two `optimize` calls giving the
+    same hologram; this is the exact list of what the second call inherits -/
+theorem C07_gen_optimize_state_carried_between_calls :
+    optimizeVariables.map (·.1) = ["attr:phase", "attr:offset", "attr:peak_amplitude", "attr:propagator.channel_power"] ∧
+    attrsInPlace optimizeTrace = ["peak_amplitude"] ∧
+    (∀ a ∈ ["phase", "offset", "peak_amplitude", "propagator", "channel_power", "amplitude", "phase_scale"], a ∉ attrsWritten optimizeTrace) := by decide
+
+/-- the census of attribute stores per method: everything is assigned by `__init__` and its helpers; `evaluate`, the two phase constraints,
+    `gradient_descent` and `optimize` assign nothing; `init_optimizer` assigns `optimizer` -/
+theorem C07_gen_optimizer_attribute_census :
+    (attrsWritten optInitTrace).length = 26 ∧ optEvaluateWrites = [] ∧ optDoublePhaseConstrainWrites = [] ∧ optDirectPhaseConstrainWrites = [] ∧
+    optGradientDescentWrites = [] ∧ optOptimizeWrites = [] ∧ optInitOptimizerWrites = ["optimizer"] := by
+  obtain ⟨h1, h2, h3, h4, h5, h6, h7⟩ := gen_optimizer_writes_per_method
+  exact ⟨by rw [h1]; rfl, h2, h3, h4, h5, h6, h7⟩
 
 end Odak
